@@ -99,18 +99,23 @@ func (x *tsExtractor) run(start string) map[tsOutcome]bool {
 			return known, true
 		}
 		xs, ys := cmp.X, cmp.Y
-		if core.ConstVal(xs) != nil {
+		isStateLoad := func(v ssa.Value) bool {
+			u, isLoad := v.(*ssa.UnOp)
+			return isLoad && x.isStateAddr(u.X)
+		}
+		if !isStateLoad(xs) {
 			xs, ys = ys, xs
 		}
-		u, isLoad := xs.(*ssa.UnOp)
-		if !isLoad || !x.isStateAddr(u.X) {
+		if !isStateLoad(xs) {
 			return known, true
 		}
-		cv := core.ConstVal(ys)
-		if cv == nil {
+		// the state is compared with a constant - written out, or looked up in a constant table of the package
+		// (the state a step expects) under an index that is a constant in the current calling context
+		k, isK := core.PathConst(ys)
+		if !isK {
 			return known, true
 		}
-		eq := x.constName[cv.ExactString()] == known
+		eq := x.constName[k] == known
 		if cmp.Op == token.NEQ {
 			eq = !eq
 		}
